@@ -11,6 +11,10 @@ Local Open Scope string_scope.
 Definition table_arrw_hash_type : bool :=
   match hf_NpyArrayWeighting with Some _ => true | None => false end.
 
+(* since fix 99fe16d the override is gone; re-adding it breaks this lemma *)
+Lemma table_arrw_is_repaired : table_arrw_hash_type = v_arrw_hash_type live_variants.
+Proof. reflexivity. Qed.
+
 Section Tab.
 Context {T : Type} `{Num T}.
 Variable v : variants.
